@@ -761,6 +761,156 @@ impl CaseSpace for IndexSets {
 }
 
 // ---------------------------------------------------------------------------------------
+// update_flags: one point of every type at the same index, the flags of one type changed
+// ---------------------------------------------------------------------------------------
+
+/// Every type has a point at index 4 with its own value. `update_flags` for one type (7) with
+/// every flag octet of the menu and time {none, synchronized}: afterwards that type's point is
+/// reported once as an event and once as a static object with the new flags, the new time and
+/// the *old* value; the points of the six other types are reported with what they had, and no
+/// event exists for them.
+struct FlagUpdates {
+    flags: Vec<u8>,
+}
+
+const FU_TYPES: [Ty; 7] = [Ty::Binary, Ty::Double, Ty::BoStatus, Ty::Counter, Ty::Frozen, Ty::Analog, Ty::AoStatus];
+
+fn fu_case(ty: Ty) -> Case {
+    let (value, s_var, e_var) = match ty {
+        Ty::Binary => (In::B(true), 2, 2),
+        Ty::BoStatus => (In::B(true), 2, 2),
+        Ty::Double => (In::D(2), 2, 2),
+        Ty::Counter => (In::U(1111), 1, 5),
+        Ty::Frozen => (In::U(2222), 1, 5),
+        Ty::Analog => (In::F(3333.0), 1, 3),
+        _ => (In::F(4444.0), 1, 3),
+    };
+    let flags = match ty {
+        Ty::Binary | Ty::BoStatus => 0x81,
+        Ty::Double => 0x81,
+        _ => 0x01,
+    };
+    Case { ty, s_var, e_var, value, flags, time: Some((5, true)), index: 4 }
+}
+
+impl CaseSpace for FlagUpdates {
+    fn name(&self) -> String {
+        "flag-updates".to_string()
+    }
+    fn total(&self) -> usize {
+        7 * self.flags.len() * 2
+    }
+    fn run(&self, index: usize, transcript: bool) -> RunResult {
+        let mut res = RunResult::default();
+        let ty = FU_TYPES[index % 7];
+        let new_flags = self.flags[(index / 7) % self.flags.len()];
+        let new_time = if index / (7 * self.flags.len()) == 0 { None } else { Some((777u64, true)) };
+        res.obs = index as u64 + 515151;
+        let cfg = OCfg { event_buf: [5; 8], ..Default::default() };
+        let mut sim = OSim::new(&cfg, 1);
+        let mut cases: Vec<Case> = FU_TYPES.iter().map(|t| fu_case(*t)).collect();
+        for c in &cases {
+            sim.db(|db| {
+                add_point(db, c);
+                update_point(db, c)
+            });
+        }
+        // read the events of the initial values away
+        let mut read_all = |sim: &mut OSim, res: &mut RunResult, seq: u8| -> Vec<Meas> {
+            sim.take_out();
+            sim.send(&app::request(seq, fc::READ, &app::class_headers(true, true, true, true)));
+            let mut all = Vec::new();
+            for _ in 0..6 {
+                let out = sim.take_out();
+                let mut con = None;
+                for t in out {
+                    if let Some(f) = t.frag() {
+                        if transcript {
+                            res.transcript.push(format!("<- {}", app::hex(f)));
+                        }
+                        if let Some(r) = app::Resp::parse(f) {
+                            if let Ok(hs) = r.headers() {
+                                if let Ok(ms) = decode_measurements(&hs) {
+                                    all.extend(ms);
+                                }
+                            }
+                            if f[0] & app::CON != 0 {
+                                con = Some(f[0] & 0x0F);
+                            }
+                        }
+                    }
+                }
+                match con {
+                    Some(s) => sim.send(&app::confirm(s, false)),
+                    None => break,
+                }
+            }
+            all
+        };
+        let first = read_all(&mut sim, &mut res, 1);
+        let kind = match ty {
+            Ty::Binary => UpdateFlagsType::BinaryInput,
+            Ty::Double => UpdateFlagsType::DoubleBitBinaryInput,
+            Ty::BoStatus => UpdateFlagsType::BinaryOutputStatus,
+            Ty::Counter => UpdateFlagsType::Counter,
+            Ty::Frozen => UpdateFlagsType::FrozenCounter,
+            Ty::Analog => UpdateFlagsType::AnalogInput,
+            _ => UpdateFlagsType::AnalogOutputStatus,
+        };
+        let info = sim.db(|db| db.update_flags(4, kind, Flags::new(new_flags), mk_time(new_time), UpdateOptions::new(true, EventMode::Force)));
+        if transcript {
+            res.transcript.push(format!("update_flags(4, {ty:?}, {new_flags:02X}, {new_time:?}) = {info:?}"));
+        }
+        let second = read_all(&mut sim, &mut res, 2);
+        res.transitions += 2;
+        if let Some(f) = sim.failure() {
+            res.violation = Some(Violation::new("C10.X0", f.clone(), f));
+            return res;
+        }
+        if first.iter().filter(|m| m.is_event).count() != 7 || first.iter().filter(|m| !m.is_event).count() != 7 {
+            res.violation = Some(Violation::new("C10.N3", "initial-points-not-all-reported", format!("{} objects", first.len())));
+            return res;
+        }
+        // the reference: the named type's point has the new flags and time, its value as before
+        for c in cases.iter_mut() {
+            if c.ty == ty {
+                // the state bits of the flag octet are the value of the single/double-bit types
+                let sm = c.ty.state_mask();
+                c.flags = (new_flags & !sm) | (c.flags & sm);
+                c.time = new_time;
+            }
+        }
+        for c in &cases {
+            let evs: Vec<&Meas> = second.iter().filter(|m| m.kind == c.ty.kind() && m.is_event).collect();
+            let sts: Vec<&Meas> = second.iter().filter(|m| m.kind == c.ty.kind() && !m.is_event).collect();
+            let want_ev = if c.ty == ty { 1 } else { 0 };
+            if evs.len() != want_ev || sts.len() != 1 {
+                res.violation = Some(Violation::new(
+                    "C10.F1",
+                    format!("flag-update-reported-for-the-wrong-point:{:?}", c.ty),
+                    format!("update_flags({ty:?}): {:?} has {} events (expected {want_ev}) and {} static objects", c.ty, evs.len(), sts.len()),
+                ));
+                return res;
+            }
+            for m in evs.iter().chain(sts.iter()) {
+                // an event object without time of its own cannot show the time; static objects carry none
+                if let Err((k, d)) = check_wire(c, m) {
+                    res.violation = Some(Violation::new(
+                        "C10.F2",
+                        format!("{k}:g{}v{}", m.group, m.var),
+                        format!("update_flags({ty:?}, {new_flags:02X}, {new_time:?}), point {:?}: {d}", c.ty),
+                    ));
+                    return res;
+                }
+            }
+        }
+        res.model_states.push(index as u64);
+        res.nontrivial = true;
+        res
+    }
+}
+
+// ---------------------------------------------------------------------------------------
 // common time of occurrence: all orders of <= 3 events
 // ---------------------------------------------------------------------------------------
 
@@ -995,6 +1145,9 @@ pub fn replay(name: &str, path: &[usize]) -> Option<RunResult> {
     if IndexSets.name() == name {
         return Some(IndexSets.run(path[0], true));
     }
+    if name == "flag-updates" {
+        return Some(FlagUpdates { flags: flag_menu("thorough") }.run(path[0], true));
+    }
     if (super::c03x::EventVariations { id: "C10" }).name() == name {
         return Some(super::c03x::EventVariations { id: "C10" }.run(path[0], true));
     }
@@ -1008,12 +1161,13 @@ pub fn check(tier: &str) -> i32 {
     let mut c = Check::new("C10", tier);
     c.cases(&build_values(tier));
     c.cases(&IndexSets);
+    c.cases(&FlagUpdates { flags: flag_menu("thorough") });
     c.cases(&Racing);
     c.cases(&Cto { id: "C10" });
     c.cases(&super::c03x::EventVariations { id: "C10" });
     c.finish(
         "exploration",
-        "finite product: 8 point types x every configured static variation and every event variation x boundary values (40 analog values incl. i16/i32/f32 limits +-1, halves, infinities, NaN, subnormals; 7 counter values incl. 0xFFFF/0x10000/u32::MAX; all binary / double-bit states) x flag octets (11 quick, all 256 thorough) x 7 timestamps (none, 0, 1, 2^48-1, synchronized and unsynchronized) x index {0, 65535}; index sets (single, dense, sparse incl. 65535, around 255/256); all orders of 3 events under a common-time-of-occurrence header with time differences {0, 1, 65535, 65536, -1, -70000} and mixed synchronisation; every configurable event variation offered by a class poll as recorded, directly and after an unconfirmed READ naming another variation (the product C03 also runs). Each case: real Database::update -> real response writers (through the real OutstationTask) -> bytes -> engine decoder and the library's extract_measurements into a recording handler, both compared with what the variation can carry; non-trivial = the point was reported; distinct = distinct case",
+        "finite product: 8 point types x every configured static variation and every event variation x boundary values (40 analog values incl. i16/i32/f32 limits +-1, halves, infinities, NaN, subnormals; 7 counter values incl. 0xFFFF/0x10000/u32::MAX; all binary / double-bit states) x flag octets (11 quick, all 256 thorough) x 7 timestamps (none, 0, 1, 2^48-1, synchronized and unsynchronized) x index {0, 65535}; index sets (single, dense, sparse incl. 65535, around 255/256); all orders of 3 events under a common-time-of-occurrence header with time differences {0, 1, 65535, 65536, -1, -70000} and mixed synchronisation; every configurable event variation offered by a class poll as recorded, directly and after an unconfirmed READ naming another variation (the product C03 also runs); update_flags for each of the 7 types x all 256 flag octets x time {none, synchronized} with a point of every type at the same index (only the named type's point changes, its value kept). Each case: real Database::update -> real response writers (through the real OutstationTask) -> bytes -> engine decoder and the library's extract_measurements into a recording handler, both compared with what the variation can carry; non-trivial = the point was reported; distinct = distinct case",
         &[
             "2^48 timestamps and the f64 domain are covered by boundary menus, not enumerated",
             "an infinite analog value through an f32 variation may arrive as infinity or saturated with OVER_RANGE",
